@@ -163,6 +163,19 @@ func init() {
 }
 
 func init() {
+	dumpers["markrows"] = func(p *Prog, m *Model) {
+		// PKG=nsx FIELDS=.needed,.nameOnDevice -> TSV rows
+		byFn := map[*ssa.Function]string{}
+		for n, fn := range fnDisplayIndex(p) {
+			byFn[fn] = n
+		}
+		for _, gs := range markSites(p, os.Getenv("PKG"), strings.Split(os.Getenv("FIELDS"), ",")) {
+			fmt.Printf("%s\t%s\t%s\tPROPS\tREASON\t# %s\n", byFn[gs.Fn], gs.Name, gs.Sig, p.ipos(gs.In))
+		}
+	}
+}
+
+func init() {
 	dumpers["order"] = func(p *Prog, m *Model) {
 		par := p.Fn("(*cisco.State).addCmds")
 		fn := closureByName(par, "add")
